@@ -816,7 +816,9 @@ pub fn do_cli(sh: &Arc<Shared>, _local: &mut TaskLocal, op: &Op) -> OpResult {
             let Ok(line) = String::from_utf8(bytes) else { return Err(OpErr::Skip) };
             judge_parse(&line, None)
         }
-        Op::FileKinds { kind } => file_kinds(sh, *kind),
+        // real special files deliver their bytes in pieces the simulator does not control: their kernel calls are
+        // not scheduling points (they would make the trace depend on timing)
+        Op::FileKinds { kind } => crate::sched::quiet(|| file_kinds(sh, *kind)),
         Op::SysFault { target, data, syscall, errno, when } => sys_fault(sh, *target, *data, *syscall, *errno, *when),
         _ => Err(OpErr::Skip),
     }
